@@ -31,8 +31,8 @@ CHECKS['C04'] = {
     ],
     'units': [
         unit('histories', 'keepstore_c04', '^TestVerifC04Histories$', _cfg({'shards': 12, 'checks': 80}), _cfg({'shards': 16, 'checks': 4000, 'timeout': 1500})),
-        unit('interleave', 'keepstore_c04', '^TestVerifC04Interleave$', _cfg({'shards': 3, 'checks': 12}), _cfg({'shards': 8, 'checks': 250, 'timeout': 1500})),
-        unit('exhaustive', 'keepstore_c04', '^TestVerifC04Exhaustive$', _cfg({'shards': 1, 'env': {'VERIF_NSHARDS': 1}}), _cfg({'shards': 8, 'env': {'VERIF_NSHARDS': 8}, 'timeout': 1500}),
+        unit('interleave', 'keepstore_c04', '^TestVerifC04Interleave$', _cfg({'shards': 2, 'checks': 15}), _cfg({'shards': 8, 'checks': 250, 'timeout': 1500})),
+        unit('exhaustive', 'keepstore_c04', '^TestVerifC04Exhaustive$', _cfg({'shards': 2, 'env': {'VERIF_NSHARDS': 2}}), _cfg({'shards': 8, 'env': {'VERIF_NSHARDS': 8}, 'timeout': 1500}),
              rapid=False, shard_arg=True),
     ],
 }
